@@ -325,9 +325,9 @@ def gen_history(rng, desc):
         elif k < 0.70:
             ops.append("ctorobj")
         elif k < 0.73:
-            # the limits of the live format object changed in place (on a table whose widths are not negotiated:
-            # after a print the widths stay as negotiated for the rows visible before - see the report)
-            ops += ["set " + enc_str(""), "setlim %s %s" % (rng.choice(["n", 0, 1, 2, 4]), rng.choice(["n", 0, 1, 3])), "str"]
+            # the limits of the live format object changed in place, in any state (fresh, printed, re-formatted)
+            ops += rng.choice([[], ["print"], ["print", "str"]]) + \
+                   ["setlim %s %s" % (rng.choice(["n", 0, 1, 2, 4]), rng.choice(["n", 0, 1, 3])), "str"]
         elif k < 0.78:
             # columns removed from the live format object, between two reads of the format
             gone = [n for n in names + ["no such column"] if rng.random() < 0.4][:max(1, len(names) - 1)]
@@ -378,16 +378,20 @@ def gen_default_limits_case(rng):
 
 
 def gen_setlim_printed_case(rng):
-    """set_limits on a PRINTED table whose columns all have fixed widths (nothing to re-negotiate): the flag
-    'lines were skipped' of the last print must not survive the change"""
+    """set_limits on a PRINTED table (fixed and ranged columns, values of different lengths so that the widths
+    fitted to the old visible rows differ from those of the new ones): neither the flag 'lines were skipped' nor
+    the widths of the last print may survive the change"""
     nf = rng.randint(1, 3)
     fields = [{"name": nm, "enum": None, "title": None} for nm in rng.sample(["id", "grp", "name", "x y"], nf)]
     n = rng.choice([3, 5, 6, 8, 12])
-    records = [[(i if k == 0 else (i // 2 if k == 1 else "v%d" % (i % 5))) for k in range(nf)] for i in range(n)]
+    wide = rng.randrange(n)
+    records = [[(i if k == 0 else (i // 2 if k == 1 else "v" * (8 if i == wide else 1 + i % 3))) for k in range(nf)]
+               for i in range(n)]
     cols = []
     for k, fl in enumerate(fields):
         w = rng.choice([0, 2, 3, 6])
-        cols.append({"f": fl["name"], "mod": None, "brk": k == 1 and rng.random() < 0.5, "w": [w, w]})
+        cols.append({"f": fl["name"], "mod": None, "brk": k == 1 and rng.random() < 0.5,
+                     "w": rng.choice([[w, w], None, None, [1, 12], [0, 5]])})
     lim0 = rng.choice([None, "*", [5, 5], [rng.randint(0, 4), rng.randint(0, 4)], [12, 12]])
     desc = {"valid": True, "fields": fields, "records": records, "cols": cols, "header": None, "footer": None, "skip": None,
             "fmt_limits": lim0, "limits": None}
@@ -420,6 +424,10 @@ def corpus():
             "cols": [{"f": "a", "mod": None, "brk": False, "w": None}, {"f": "b", "mod": None, "brk": False, "w": None}],
             "fmt_limits": [5, 5], "limits": None, "header": None, "footer": None, "skip": None, "fmt": "a,b;5:5"}
     yield _case(desc, ["print", "setlim 1 1", "str", "ctorlast", "print", "str"], "corpus-set_limits-stale-flag")
+    # the defect fixed by 1d22ea8: set_limits kept the widths fitted to the rows visible with the old limits
+    desc = dict(desc, records=[[i, "x" * (8 if i == 3 else 1)] for i in range(6)])
+    yield _case(desc, ["print", "setlim 1 1", "str", "setlast", "print", "str"], "corpus-set_limits-stale-widths")
+    yield _case(desc, ["print", "setlim 1 1", "str", "ctorlast", "print", "str"], "corpus-set_limits-stale-widths")
 
 
 def gen_cases(rng, tier):
@@ -530,14 +538,14 @@ TRUSTED = list(c12.TRUSTED)
 ASSUMPTIONS = list(c12.ASSUMPTIONS) + [
     "field names contain none of , : ; ! / < ( ) and no surrounding blanks (out of the property's domain)",
     "a print that raises ends the history (the half-updated format object is not modelled)",
-    "remove_columns / set_limits are issued on tables whose widths are not negotiated (after `set ''`), set_limits "
-    "also on printed tables with fixed-width columns only; the theorems (Reach.removeFresh, Reach.setLimitsFresh) "
-    "cover exactly the un-negotiated case"]
+    "remove_columns is issued on tables whose widths are not negotiated (after `set ''`); the theorems "
+    "(Reach.removeFresh) cover exactly that case; set_limits is issued and covered (Reach.setLimits) in any state"]
 LEVEL_TEXT = ("Kernel-checked on the model, for tables built with explicit expressible field names (modifiers of "
               "user-written field types: free text without , : ; ! < and no trailing blank, '/' allowed) and all "
               "histories in Reach: construction from a string / from column objects / from another reachable table's "
               "format object (siblings), printing, table.fmt = <any string>, re-construction from any string, and - on "
-              "tables whose widths are not negotiated - table.fmt.set_limits(...) and table.remove_columns(...). "
+              "table.fmt.set_limits(...) in any state and - on tables whose widths are not negotiated - "
+              "table.remove_columns(...). "
               "parse_print: the printed string is accepted and reads back as the same columns (name, modifier, break-by, "
               "bounds; the '(width)' suffix ignored) and as the same limits when they are in the string - they are left "
               "out when the last printing skipped nothing. same_rendering_setter: same lines, same fields and columns, "
@@ -550,11 +558,10 @@ LEVEL_TEXT = ("Kernel-checked on the model, for tables built with explicit expre
               "call without fields= fails at print (fieldless_literal_fails, known finding fieldless_ctor_route). "
               "Model = code rests on the differential run of histories.")
 LEVEL_NOTE = ("Trusted: Lean kernel, translator (constants shared with C12), adapter/wire in harness/c12.py and c13.py, "
-              "sampled correspondence. Tie and oracle only (outside Reach): set_limits on a PRINTED table (generated "
-              "only with fixed-width columns, where nothing can be re-negotiated); the fmt_obj route inside histories "
+              "sampled correspondence. Tie and oracle only (outside Reach): the fmt_obj route inside histories "
               "(ctorobj). Tie only, not judged by the oracle and ruled outside the quantifier 'fresh, printed, "
-              "re-formatted': remove_columns or set_limits on a printed table with ranged columns - the widths stay as "
+              "re-formatted': remove_columns on a printed table and records.append after a print - the widths stay as "
               "negotiated for the rows visible before, feeding the string back re-negotiates them (reported); the "
-              "driver applies rmcols/setlim in any state, the generator issues them on un-negotiated tables only. Not "
+              "driver applies rmcols in any state, the generator issues it on un-negotiated tables only. Not "
               "covered: negative limits on the constructor route (not faithful, reported), enhanced formats.")
 TECHNIQUE = "Lean 4 theorems (string round trip on List Char, reachability invariants) + differential run of histories"
